@@ -163,8 +163,8 @@ Proof. exact g_uint_shr_eq. Qed.
 Print Assumptions C05_src_shr.
 
 (* ---------------- limb-wise bitwise operators (Src/GenLogic.v: src/uint/bit_and.rs, bit_or.rs, bit_xor.rs, bit_not.rs) *)
-(** Uint::bitand / bitor / bitxor / not as regenerated from the source are the model maps, and the represented integer
-    is Z.land / Z.lor / Z.lxor / the complement within the width, for every limb count *)
+(** Uint::bitand / bitor / not as regenerated (bitxor: Src/GenIntP.v) from the source are the model maps, and the represented integer
+    is Z.land / Z.lor / the complement within the width, for every limb count *)
 Theorem C05_src_bitand_exact : forall n a b, wf a -> wf b -> length a = n -> length b = n -> usz n ->
   wf (g_uint_bitand n a b) /\ length (g_uint_bitand n a b) = n /\ eval (g_uint_bitand n a b) = Z.land (eval a) (eval b).
 Proof. exact g_uint_bitand_exact. Qed.
@@ -173,22 +173,18 @@ Theorem C05_src_bitor_exact : forall n a b, wf a -> wf b -> length a = n -> leng
   wf (g_uint_bitor n a b) /\ length (g_uint_bitor n a b) = n /\ eval (g_uint_bitor n a b) = Z.lor (eval a) (eval b).
 Proof. exact g_uint_bitor_exact. Qed.
 Print Assumptions C05_src_bitor_exact.
-Theorem C05_src_bitxor_exact : forall n a b, wf a -> wf b -> length a = n -> length b = n -> usz n ->
-  wf (g_uint_bitxor n a b) /\ length (g_uint_bitxor n a b) = n /\ eval (g_uint_bitxor n a b) = Z.lxor (eval a) (eval b).
-Proof. exact g_uint_bitxor_exact. Qed.
-Print Assumptions C05_src_bitxor_exact.
 Theorem C05_src_not_exact : forall n a, wf a -> length a = n -> usz n ->
   wf (g_uint_not n a) /\ length (g_uint_not n a) = n /\ eval (g_uint_not n a) = Bn n - 1 - eval a.
 Proof. exact g_uint_not_exact. Qed.
 Print Assumptions C05_src_not_exact.
 Theorem C05_src_bitwise_model : forall n a b, length a = n -> length b = n -> usz n ->
-  g_uint_bitand n a b = limbs_and a b /\ g_uint_bitor n a b = limbs_or a b /\ g_uint_bitxor n a b = limbs_xor a b /\
+  g_uint_bitand n a b = limbs_and a b /\ g_uint_bitor n a b = limbs_or a b /\
   g_uint_not n a = limbs_not a.
-Proof. intros n a b Ha Hb Hn. repeat split; [apply g_uint_bitand_eq | apply g_uint_bitor_eq | apply g_uint_bitxor_eq | apply g_uint_not_eq]; assumption. Qed.
+Proof. intros n a b Ha Hb Hn. repeat split; [apply g_uint_bitand_eq | apply g_uint_bitor_eq | apply g_uint_not_eq]; assumption. Qed.
 Print Assumptions C05_src_bitwise_model.
 Example C05_src_bitwise_runs :
   g_uint_bitand 2 [12; 2 ^ 64 - 1] [10; 2 ^ 63] = [8; 2 ^ 63] /\ g_uint_bitor 2 [12; 0] [10; 2 ^ 63] = [14; 2 ^ 63] /\
-  g_uint_bitxor 2 [12; 2 ^ 64 - 1] [10; 2 ^ 63] = [6; 2 ^ 63 - 1] /\ g_uint_not 2 [0; 2 ^ 64 - 2] = [2 ^ 64 - 1; 1].
+  g_uint_not 2 [0; 2 ^ 64 - 2] = [2 ^ 64 - 1; 1].
 Proof. vm_compute. repeat split. Qed.
 
 (** non-vacuity: the generated ladders and the bit length run on 3-limb inputs (shift 65 crosses a limb; 192 = BITS overflows) *)
